@@ -465,3 +465,25 @@ benign("c06-preorder-none-test", ["C06"], [(PRE, "descendantmaxlevel = maxlevel 
 benign("c06-levelorder-level-from-2", ["C06"], [(LO, "        level = 1\n", "        level = 2\n"), (LO, "            level += 1\n            if AbstractIter._abort_at_level(level, maxlevel):", "            if AbstractIter._abort_at_level(level, maxlevel):"),
                                                 (LO, "            children = next_children\n", "            children = next_children\n            level += 1\n")])
 benign("c06-group-concat-augassign", ["C06"], [(LOG, "next_children = next_children + AbstractIter._get_children(child.children, stop)", "next_children += AbstractIter._get_children(child.children, stop)")])
+
+# ------------------------------------------------------------------ C17
+WK = "anytree/walker.py"
+RD = "anytree/render.py"
+seeded("c17-walker-root-eq", ["C17"], [(WK, "if start.root is not end.root:", "if start.root != end.root:")], ["T1"])
+seeded("c17-walker-common-by-eq", ["C17"], [(WK, "return tuple(si for si, ei in zip(start, end) if si is ei)", "return tuple(si for si, ei in zip(start, end) if si == ei)")], ["T1"])
+seeded("c17-walker-start-in-common", ["C17"], [(WK, "        if start is common[-1]:", "        if start in common:")], ["T2"])
+seeded("c17-commonancestors-all-eq", ["C17"], [(UT, "if all(parentnode is p for p in parentnodes[1:]):", "if all(parentnode == p for p in parentnodes[1:]):")], ["T1"])
+seeded("c17-siblings-filter-truthy", ["C17", "C18"], [(NM, "return tuple(node for node in parent.children if node is not self)", "return tuple(node for node in parent.children if node and node is not self)")], ["T3", "M4"])
+seeded("c17-root-while-truthy", ["C17"], both("        while node.parent is not None:\n            node = node.parent\n", "        while node.parent:\n            node = node.parent\n"), ["T3"])
+seeded("c17-iter-path-while-truthy", ["C17"], both("        while node is not None:\n            yield node\n", "        while node:\n            yield node\n"), ["T3"])
+seeded("c17-render-children-len-of-node", ["C17"], [(RD, "            children = node.children\n            if children:", "            children = node.children\n            if len(node) or children:")], ["T5"])
+seeded("c17-resolver-parent-truthy", ["C17", "C07"], [(RS, "                parent = node.parent\n                if parent is None:\n                    if self.relax:\n                        return None\n",
+                                                        "                parent = node.parent\n                if not parent:\n                    if self.relax:\n                        return None\n")], ["T3"])
+seeded("c17-search-result-set", ["C17"], [(SE, "    result = tuple(PreOrderIter(node, filter_, stop, maxlevel))\n", "    result = tuple(PreOrderIter(node, filter_, stop, maxlevel))\n    unique = set(result)\n")], ["T4"])
+seeded("c17-exporter-seen-set", ["C17"], [(MX, "            for child in node.children:\n                if filter_(child) and not stop(child):", "            seen = set()\n            for child in node.children:\n                seen.add(child)\n                if filter_(child) and not stop(child):")], ["T4"])
+seeded("c17-check-loop-in-path", ["C17", "C01"], both("            if any(child is self for child in node.iter_path_reverse()):", "            if self in node.path:"), ["T2", "W5"])
+seeded("c17-leaves-sorted", ["C17"], both("        return tuple(PreOrderIter(self, filter_=lambda node: node.is_leaf))", "        return tuple(sorted(PreOrderIter(self, filter_=lambda node: node.is_leaf)))"), ["T2"])
+seeded("c17-dictimporter-parent-truthy", ["C17"], [(DIM, "        node = self.nodecls(parent=parent, **attrs)\n", "        node = self.nodecls(parent=parent or None, **attrs)\n")], ["T3"])
+benign("c17-children-truthiness-of-sequence", ["C17"], both("        children = self.__children_or_empty\n        if children:", "        children = self.__children_or_empty\n        if len(children) > 0:"))
+benign("c17-walker-identity-flipped", ["C17"], [(WK, "if start.root is not end.root:", "if not (end.root is start.root):")])
+benign("c17-id-membership", ["C17"], [(WK, "        if start is common[-1]:", "        if id(start) in [id(c) for c in common[-1:]]:")])
